@@ -71,6 +71,7 @@ InitMon(t) ==
      call |-> [c \in Clients(t) |-> NoCall],
      tx |-> [c \in Clients(t) |-> [d |-> 0, w |-> <<>>, made |-> {}]],
      now |-> 0,
+     faulty |-> ("faulty" \in DOMAIN t.init /\ t.init.faulty = 1),
      known |-> {}]
 
 RowOfKey(S, k) == LET i == Find(S.rows, k) IN IF i = 0 THEN <<>> ELSE <<ProjRow(S.rows[i])>>
@@ -89,6 +90,9 @@ NewCall(op, a, now, st, db) ==
     [op |-> op, a |-> a, now |-> now, st |-> st, exp |-> RNone, cand |-> {}, touched |-> {},
      pb |-> <<>>, count |-> 0, busy |-> 0, fin |-> FALSE, nochange |-> TRUE,
      ukeys |-> KeysOf(db.rows), ikeys |-> KeysOf(db.rows)]
+
+FailKinds == {"Timeout", "OSError", "OperationalError", "InterfaceError", "ProgrammingError",
+              "IntegrityError", "DatabaseError", "UnicodeEncodeError", "ValueError", "StreamError", "miss", "false"}
 
 V(ok, Mn, why) == [ok |-> ok, M |-> Mn, why |-> why]
 Fail(Mo, why) == V(FALSE, Mo, why)
@@ -157,9 +161,12 @@ OnCall(Mo, e) ==
          IN V(TRUE, [Mo EXCEPT !.call[c] =
                         IF IsLoopOp(e.op) THEN cl ELSE [cl EXCEPT !.cand = {Dispatch(Mo.db, cl).ret}]], "")
 
-Publish(Mo, e, newdb) ==
+Publish(Mo, e, newdb0) ==
     \* common part of commit / autocommit: file references, counters, other calls
-    LET refs2 == ObsRefs(e.rows)
+    LET \* under fault injection a lookup whose file cannot be opened is a miss: the
+        \* hit/miss statistics are taken from the observation, not judged
+        newdb == IF Mo.faulty THEN [newdb0 EXCEPT !.hits = e.ctr[3], !.misses = e.ctr[4]] ELSE newdb0
+        refs2 == ObsRefs(e.rows)
         chg == Changed(Mo.db, newdb)
     IN IF ~ObsCtrOK(e.rows, e.ctr)
        THEN Fail(Mo, "C08 counters: count/size settings differ from the rows at commit")
@@ -188,7 +195,8 @@ OnCommit(Mo, e) ==
        THEN Fail(Mo, "C06 block bookkeeping: commit without an open block")
        ELSE IF IsQueueLoop(cl.op)
        THEN LET s == QueueLoopStep(Mo.db, cl)
-            IN IF cl.fin THEN Fail(Mo, "C05 " \o cl.op \o " committed again after it had its result")
+            IN IF cl.fin /\ ~Mo.faulty     \* (an unreadable value file counts as deleted: the loop goes on)
+               THEN Fail(Mo, "C05 " \o cl.op \o " committed again after it had its result")
                ELSE IF ObsProj(e.rows) # Proj(s.S)
                THEN Fail(Mo, "C05/C10 " \o cl.op \o ": commit is not 'remove the expired head' / 'take the live head' of the committed contents")
                ELSE LET r == Publish(Mo, e, s.S)
@@ -275,8 +283,15 @@ OnRet(Mo, e) ==
             ELSE Fail(Mo, "C06 a block that raised was not rolled back")
        ELSE IF cl.st = "inner"
        THEN IF e.ret = cl.exp THEN V(TRUE, Mq, "")
+            ELSE IF Mo.faulty /\ e.ret.k \in FailKinds THEN V(TRUE, Mq, "")   \* injected failure: the block will raise
             ELSE Fail(Mo, "C06 call inside a block returned " \o ToJson(e.ret) \o
                           " but the reference dictionary on the block's own view returns " \o ToJson(cl.exp))
+       ELSE IF Mo.faulty /\ e.ret.k \in FailKinds
+       THEN \* fault injection (C08): the return value of the faulted call is not judged; the
+            \* bookkeeping at quiescence is
+            done1
+       ELSE IF Mo.faulty /\ cl.st = "committed" /\ ~IsLoopOp(cl.op) /\ e.ret # cl.exp
+       THEN done1
        ELSE IF e.ret.k = "Timeout"
        THEN \* C14: nothing of the call took effect (loops report what they removed)
             IF cl.st = "committed" /\ ~IsLoopOp(cl.op)
